@@ -47,8 +47,10 @@ VALUES = ["<absent>", None, True, 0, 1, 2, 3, 1.5, "", "root", "sgx_root", "devi
 
 def shards(tier, seed):
     if tier == "quick":
-        return [{"seed": seed * 1000 + i, "n": 28} for i in range(16)]
-    return [{"seed": seed * 1000 + i, "n": 700} for i in range(32)]
+        return [{"seed": seed * 1000 + i, "python_O": i % 3 == 2,
+                 "n": 28} for i in range(16)]
+    return [{"seed": seed * 1000 + i, "python_O": i % 3 == 2,
+                 "n": 700} for i in range(32)]
 
 
 def mutate(rng, doc, version):
